@@ -139,7 +139,10 @@ class CFG:
         return any(f.kind in ("try", "finally", "with") for f in frames)
 
     def _exc(self, node, frames):
-        if self._observable(frames):
+        # a `yield` is a point where the caller can throw into the generator (context
+        # managers!): it always has an exceptional continuation, even outside a try
+        has_yield = node.ast is not None and node.kind == "stmt" and any(isinstance(x, (ast.Yield, ast.YieldFrom)) for x in ast.walk(node.ast))
+        if self._observable(frames) or has_yield:
             self._jump([(node, "exc")], "raise", frames)
 
     def _jump(self, front, kind, frames):
